@@ -192,7 +192,7 @@ impl Prop for C11 {
             cov.ops += w.ops;
             match r {
                 Ok(s) => seq_a = s,
-                Err(v) => return RunResult { trace_hash: 0, violation: Some(v) },
+                Err(v) => return RunResult::new(0, Some(v)),
             }
         }
         // execution B: with the reload, 3000 simulated seconds later
@@ -204,18 +204,19 @@ impl Prop for C11 {
         cov.ops += w.ops;
         let seq_b = match r {
             Ok(s) => s,
-            Err(v) => return RunResult { trace_hash: 0, violation: Some(v) },
+            Err(v) => return RunResult::new(0, Some(v)),
         };
         for x in &seq_b {
             tr.word(x.1);
         }
         if sc.new_threshold.is_none() {
             if seq_a.len() != seq_b.len() {
-                return RunResult { trace_hash: tr.hash(), violation: Some(Violation::new("HARNESS/c11-sequence-length", 0, format!("{} vs {}", seq_a.len(), seq_b.len()))) };
+                return RunResult { rewrite: None, trace_hash: tr.hash(), violation: Some(Violation::new("HARNESS/c11-sequence-length", 0, format!("{} vs {}", seq_a.len(), seq_b.len()))) };
             }
             for (a, b) in seq_a.iter().zip(seq_b.iter()) {
                 if a.1 != b.1 {
                     return RunResult {
+ rewrite: None,
                         trace_hash: tr.hash(),
                         violation: Some(Violation::new(
                             format!("C11/{}/{}/behaviour-differs-after-reload", vname, mode),
@@ -229,7 +230,7 @@ impl Prop for C11 {
                 }
             }
         }
-        RunResult { trace_hash: tr.hash(), violation: None }
+        RunResult::new(tr.hash(), None)
     }
 
     fn shrink(&self, scenario: &Value) -> Vec<Value> {
